@@ -3,7 +3,7 @@ import os, sys, shutil, tempfile, atexit, pickle, inspect
 from hypothesis import strategies as st
 from harness import arch as A, values as V, sigs as S, procs, cachehist as H
 from harness.cachehist import exc_sig, _tmproot
-from harness.core import Discrepancy
+from harness.core import Discrepancy, Multi
 
 PROP = 'C17'
 LEVEL = 'exploration'
@@ -231,7 +231,8 @@ def _keys(case):
         r = worker(i).request({'cmd': 'call', 'mod': 'props.c17', 'fn': 'compute_keys', 'args': {'items': items, 'which': i}}, timeout=120)
         recs.append(r[1])
     out = []
-    nts = []
+    nts = Multi()
+    nts.evals = len(items)
     for j, it in enumerate(items):
         r0, r1, r2 = recs[0][j], recs[1][j], recs[2][j]
         kmtag = '%s%s%s%s%s' % (it['keymap']['cls'], '-' + str(it['keymap']['opt']) if it['keymap']['opt'] else '', '' if it['keymap']['flat'] else '-nonflat',
@@ -263,8 +264,7 @@ def _keys(case):
             classes.append('two_keywords')
         if has_str and len(k0) >= 2:
             nts.append((kmtag, it['path'], sorted((k, len(v) if isinstance(v, list) else v) for k, v in it['sig'].items()), it['forms']))
-    nt = nts if nts else None
-    return out, nt, classes
+    return out, nts, classes
 
 
 def _has_str(b):
@@ -281,14 +281,15 @@ def _has_str(b):
 
 
 def _sessions(case):
-    out, nts, classes = [], [], ['mode:sessions']
+    out, nts, classes = [], Multi(), ['mode:sessions']
+    nts.evals = len(case['cases'])
     for c in case['cases']:
         d, nt, cl = _session(c)
         out += d
         classes += cl
         if nt is not None:
             nts.append(nt)
-    return out, (nts or None), classes
+    return out, nts, classes
 
 
 def _session(case):
